@@ -71,6 +71,10 @@ ATOMIC = [
     ("perf_array", 2),
     ("num_tracks", 2),
     ("save_match", 2),
+    ("na_slice", 3),
+    ("na_pianoroll", 2),
+    ("na_estimate", 2),
+    ("na_to_score", 1),
 ]
 ITER = [("loop", 5), ("partial", 3), ("nested", 4), ("loop_call", 4), ("iter_unfolded", 2), ("perf_loop", 3)]
 
@@ -104,6 +108,12 @@ def _gen_atomic(o, nparts, has_perf, cfg):
         op.update(target=o.choice(("perf", "ppart")), route=o.choice(("filelike", "path")))
     elif k == "perf_array":
         op.update(target=o.choice(("perf", "ppart")))
+    elif k in ("na_slice", "na_pianoroll", "na_estimate", "na_to_score"):
+        op.update(arr=o.randrange(nparts))
+        if k == "na_slice":
+            op.update(a=o.choice((0, 0, 1, 2)), b=o.choice((1, 2, 3, 5, 100)), clip=o.random() < 0.8, which=o.choice(("last_onset", "span", "fixed")))
+        if k == "na_estimate":
+            op.update(what=o.choice(("spelling", "voices", "key")))
     if cfg == "fault" and k in ("save_xml", "save_midi", "perf_midi") and op.get("route") != "str" and o.random() < 0.6:
         op["fault"] = {"kind": o.choice(("write_error", "write_error", "close_error", "crash")), "at": o.choice((0, 1, 2, 3, 5, 8, 20)), "errno": o.choice((28, 5))}
     return op
@@ -247,10 +257,11 @@ class World(object):
             self.perf, self.align = make_perf(self.asc, case["perf_seed"])
         self.res = res
         self.snapper = FP.Snapshotter()
-        self.arrays = {}
+        # note arrays "taken earlier" and passed to array-level entry points; part of the world snapshot
+        self.arrays = [p.note_array(include_pitch_spelling=True, include_staff=True) for p in self.score.parts]
 
     def roots(self):
-        r = [self.score]
+        r = [self.score, self.arrays]
         if self.perf is not None:
             r += [self.perf, self.align]
         return r
@@ -365,6 +376,34 @@ def run_atomic(w, op, res, sink=None):
             return _finish(buf, o)
         if k == "perf_array":
             return tgt.note_array()
+        if k.startswith("na_"):
+            na = w.arrays[op["arr"] % len(w.arrays)]
+            if k == "na_slice":
+                on, du = na["onset_beat"], na["duration_beat"]
+                if len(na) == 0:
+                    return None
+                if op["which"] == "last_onset":
+                    # window containing every onset but ending before the last offset
+                    a, b = float(on.min()) - 0.5, float(on.max()) + 1e-3
+                elif op["which"] == "span":
+                    a, b = float(on.min()), float((on + du).max())
+                else:
+                    a, b = float(op["a"]), float(op["a"] + op["b"])
+                return M.slice_notearray_by_time(na, a, b, clip_onset_duration=op["clip"])
+            if k == "na_pianoroll":
+                return np.asarray(M.compute_pianoroll(na).todense())
+            if k == "na_estimate":
+                from partitura import musicanalysis as MA
+
+                if op["what"] == "spelling":
+                    return MA.estimate_spelling(na)
+                if op["what"] == "voices":
+                    return MA.estimate_voices(na)
+                return MA.estimate_key(na)
+            if k == "na_to_score":
+                from partitura.musicanalysis.note_array_to_score import note_array_to_score
+
+                return FP.value_fp(note_array_to_score(na[["onset_beat", "duration_beat", "pitch"]] if False else na))
         if k == "num_tracks":
             return [w.perf.num_tracks] + [pp.num_tracks for pp in w.perf.performedparts]
         if k == "save_match":
@@ -394,6 +433,13 @@ def _finish(buf, o):
     except OSError as e:
         return ("raised", "OSError")
     return bytes(o.data)
+
+
+def _tkind(op):
+    t = op.get("target")
+    if t is None:
+        return "array" if "arr" in op else None
+    return "part" if t.startswith("part") else t
 
 
 def opkey(op):
@@ -465,7 +511,7 @@ def _execute(case, res):
                 # add_segments / Part.segments / get_paths are documented to add Segment objects to the part
                 state["snap"] = s1
                 return
-            res.violation("O3-nonmutation", opname, "%s changed its argument/world: %s" % (op, "; ".join(FP.diff_snapshots(s0, s1))), site=shape)
+            res.violation("O3-nonmutation", opname, "%s changed its argument/world: %s" % (op, "; ".join(FP.diff_snapshots(s0, s1))), site=shape, target=_tkind(op))
             state["snap"] = s1
 
     def seg_state():
@@ -640,7 +686,7 @@ def _execute(case, res):
                     res.log.add(cname, "iter_unfolded-raised", type(e).__name__)
                 s1 = w.snap()
                 if s1 != state["snap"]:
-                    res.violation("O3-nonmutation", "iter_unfolded", "iter_unfolded_parts changed its argument: %s" % "; ".join(FP.diff_snapshots(state["snap"], s1)), site=diff_shape(state["snap"], s1))
+                    res.violation("O3-nonmutation", "iter_unfolded", "iter_unfolded_parts changed its argument: %s" % "; ".join(FP.diff_snapshots(state["snap"], s1)), site=diff_shape(state["snap"], s1), target="part")
                     state["snap"] = s1
             else:
                 atomic(cname, op)
